@@ -75,25 +75,25 @@ def printKeyLess : Val → Val → Bool
   | _, _ => false
 
 mutual
-partial def sMsg (S : Schema) (mi : Nat) : Msg → String
-  | .mk fs unk => "( " ++ sFields S (S.msg mi) (Fields.sortBy (fun a b => a < b) fs) ++ "u " ++ hexOfBytes unk ++ " )"
-partial def sFields (S : Schema) (d : MsgD) : Fields → String
+partial def sMsg (q : Bool) (S : Schema) (mi : Nat) : Msg → String
+  | .mk fs unk => "( " ++ sFields q S (S.msg mi) (Fields.sortBy (fun a b => a < b) fs) ++ "u " ++ hexOfBytes unk ++ " )"
+partial def sFields (q : Bool) (S : Schema) (d : MsgD) : Fields → String
   | .nil => ""
   | .cons num fv tl =>
     let f := (d.find num).getD { num := num, kind := .bytes, card := .optional }
     (match fv with
-     | .one v => s!"{num} s {sVal S f v} "
+     | .one v => s!"{num} s {sVal q S f v} "
      | .many vs =>
        let vs := if f.card = .map then Vals.sortBy printKeyLess vs else vs
-       s!"{num} r {vs.toList.length} " ++ String.join (vs.toList.map fun v => sVal S f v ++ " ")) ++ sFields S d tl
-partial def sVal (S : Schema) (f : Field) : Val → String
+       s!"{num} r {vs.toList.length} " ++ String.join (vs.toList.map fun v => sVal q S f v ++ " ")) ++ sFields q S d tl
+partial def sVal (q : Bool) (S : Schema) (f : Field) : Val → String
   | .num n =>
     -- canonical output only: the Go harness reads float32 fields through protoreflect (float64), which turns a
     -- signalling NaN into the quiet NaN with the same payload; print the same canonical pattern here
-    let n := if f.kind = .float ∧ (n / 8388608) % 256 = 255 ∧ n % 8388608 ≠ 0 then n ||| 4194304 else n
+    let n := if q ∧ f.kind = .float ∧ (n / 8388608) % 256 = 255 ∧ n % 8388608 ≠ 0 then n ||| 4194304 else n
     s!"n {n}"
   | .bytes b => s!"b {hexOfBytes b}"
-  | .msg m => sMsg S f.sub m
+  | .msg m => sMsg q S f.sub m
 end
 
 def setField (S : Schema) (mi : Nat) (f : Field) : Schema :=
@@ -105,7 +105,7 @@ def sErr : DErr → String
 def splitBar (ts : List String) : List String × List String :=
   (ts.takeWhile (· ≠ "|"), (ts.dropWhile (· ≠ "|")).drop 1)
 
-def msgStep (S : Schema) : List String → Schema × String
+def msgStep (q : Bool) (S : Schema) : List String → Schema × String
   | ["schema", n] => match n.toNat? with
     | some n => ({ msgs := List.replicate n ⟨[]⟩ }, "ok")
     | none => (S, "bad-op")
@@ -136,22 +136,22 @@ def msgStep (S : Schema) : List String → Schema × String
     | some mi, some (m, []) => (S, if initMsg S mi m then "ok" else "missing")
     | _, _ => (S, "bad-op")
   | "clone" :: mi :: ts => match mi.toNat?, pMsg ts with
-    | some mi, some (m, []) => (S, sMsg S mi (clone S mi m))
+    | some mi, some (m, []) => (S, sMsg q S mi (clone S mi m))
     | _, _ => (S, "bad-op")
   | "canon" :: mi :: ts => match mi.toNat?, pMsg ts with
-    | some mi, some (m, []) => (S, sMsg S mi m)
+    | some mi, some (m, []) => (S, sMsg q S mi m)
     | _, _ => (S, "bad-op")
   | ["dec", mi, limit, discard, h] => match mi.toNat?, limit.toInt?, bytesOfHex h with
     | some mi, some limit, some b =>
       (S, match unmarshal S mi b limit (discard == "1") with
-          | .ok m => "ok " ++ sMsg S mi m
+          | .ok m => "ok " ++ sMsg q S mi m
           | .error e => sErr e)
     | _, _, _ => (S, "bad-op")
   | "decinto" :: mi :: limit :: discard :: h :: ts =>
     match mi.toNat?, limit.toInt?, bytesOfHex h, pMsg ts with
     | some mi, some limit, some b, some (m, []) =>
       (S, match unmarshalInto S mi m b limit (discard == "1") with
-          | .ok m => "ok " ++ sMsg S mi m
+          | .ok m => "ok " ++ sMsg q S mi m
           | .error e => sErr e)
     | _, _, _, _ => (S, "bad-op")
   | "op" :: mi :: opname :: ts =>
@@ -162,7 +162,7 @@ def msgStep (S : Schema) : List String → Schema × String
       let d := S.msg mi
       let fin (op : Option Op) (rest : List String) : String :=
         match op, pMsg rest with
-        | some op, some (m, []) => sMsg S mi (step d m op)
+        | some op, some (m, []) => sMsg q S mi (step d m op)
         | _, _ => "bad-op"
       let r : String := match opname, ts with
         | "set", num :: rest => (match num.toNat?, pVal rest with
@@ -197,7 +197,7 @@ def msgStep (S : Schema) : List String → Schema × String
   | "merge" :: mi :: ts =>
     let (a, b) := splitBar ts
     match mi.toNat?, pMsg a, pMsg b with
-    | some mi, some (x, []), some (y, []) => (S, sMsg S mi (mergeMsg S mi x y))
+    | some mi, some (x, []), some (y, []) => (S, sMsg q S mi (mergeMsg S mi x y))
     | _, _, _ => (S, "bad-op")
   | "equal" :: mi :: ts =>
     let (a, b) := splitBar ts
@@ -206,15 +206,17 @@ def msgStep (S : Schema) : List String → Schema × String
     | _, _, _ => (S, "bad-op")
   | _ => (S, "bad-op")
 
-partial def msgLoop (h out : IO.FS.Stream) (S : Schema) : IO Unit := do
+partial def msgLoop (q : Bool) (h out : IO.FS.Stream) (S : Schema) : IO Unit := do
   let line ← h.getLine
   if line.isEmpty then
     out.flush
     return ()
-  let (S', ans) := msgStep S (words (line.trimAscii.toString))
+  let (S', ans) := msgStep q S (words (line.trimAscii.toString))
   out.putStrLn ans
   out.flush
-  msgLoop h out S'
+  msgLoop q h out S'
 
 def main : IO Unit := do
-  msgLoop (← IO.getStdin) (← IO.getStdout) { msgs := [] }
+  -- PBMODEL_QUIET_NAN=1: print float32 NaNs with the quiet bit set (what a Go harness sees through protoreflect)
+  let q := (← IO.getEnv "PBMODEL_QUIET_NAN") == some "1"
+  msgLoop q (← IO.getStdin) (← IO.getStdout) { msgs := [] }
